@@ -34,7 +34,7 @@ func runC14(c *core.Ctx) {
 	c.MinInstances("C14-ESC", 2)
 	// "no character is cut" presupposes that parts are cut at the capacity of the codec that produced the octets and that
 	// the splitters tile the buffer (C06 templates, which import the codec and GSM 7-bit rule sets)
-	c.MinInstances("C14-SPLIT", 200)
+	c.MinInstances("C14-SPLIT", 120)
 	importRules(c, "C06", "C14-SPLIT", nil)
 	c.Trust("VTA call graph for the set of codecs reaching a call site", "the list of multi-unit codings (UCS-2, GB18030, unpacked GSM 7-bit)")
 	c.NotDecided("correctness of a data-dependent boundary adjustment for UCS-2/GB18030 (none exists today)")
